@@ -78,15 +78,18 @@ OnEmitted(X, k) == \E s \in DOMAIN X.row : X.row[s][k] = 0
 (***************************************************************************)
 (* C08: structural validity.  FileDefects(T) = names of violated clauses.  *)
 (***************************************************************************)
-NoDup(ids) == \A i, j \in 1..Len(ids) : i # j => ids[i] # ids[j]
+NoDup(ids) == Cardinality(ToSet(ids)) = Len(ids)
 Refs(PVs, i) == ToSet(PVs[i].args)
-RECURSIVE ReachFrom(_, _, _, _)
-ReachFrom(T, PVs, frontier, n) ==
-  IF n = 0 \/ frontier = {} THEN frontier
-  ELSE LET nxt == UNION { Refs(PVs, PosOfVol(T, id)) : id \in { x \in frontier : x \in VolIds(T) } }
-       IN nxt \cup ReachFrom(T, PVs, nxt, n - 1)
-Cyclic(T, PVs) == \E i \in IdxSetOf(T.vols) :
-                     T.vols[i].id \in ReachFrom(T, PVs, Refs(PVs, i), Len(T.vols))
+(* the reference graph is acyclic iff repeatedly discarding the volumes that refer to no remaining volume *)
+(* leaves nothing                                                                                      *)
+RECURSIVE StripLeaves(_, _, _)
+StripLeaves(refsOf, S, fuel) ==
+  LET S2 == { v \in S : refsOf[v] \cap S # {} }
+  IN IF S2 = S \/ fuel = 0 THEN S ELSE StripLeaves(refsOf, S2, fuel - 1)
+Cyclic(T, PVs) ==
+  LET ids == VolIds(T)
+      refsOf == [v \in ids |-> UNION { Refs(PVs, i) : i \in { j \in IdxSetOf(T.vols) : T.vols[j].id = v } }]
+  IN StripLeaves(refsOf, ids, Len(T.vols) + 1) # {}
 
 FileDefects(T) ==
   LET PVs == Parsed(T)
@@ -95,10 +98,9 @@ FileDefects(T) ==
       tids == [i \in IdxSetOf(T.trs) |-> T.trs[i].id]
       nonfict == { T.vols[i].id : i \in { j \in IdxSetOf(T.vols) : ~PVs[j].fict } }
       grows == T.geomcomp.rows
-      assigned(id) == LET RECURSIVE Sum(_)
-                          Sum(r) == IF r = 0 THEN 0
-                                    ELSE Cardinality({ x \in 1..Len(grows[r].ids) : grows[r].ids[x] = id }) + Sum(r - 1)
-                      IN Sum(Len(grows))
+      allAssigned == LET RECURSIVE Cat(_)
+                         Cat(r) == IF r = 0 THEN <<>> ELSE Cat(r - 1) \o grows[r].ids
+                     IN Cat(Len(grows))
       cnames == T.compo.names
   IN
   (IF ~NoDup(sids) \/ (\E i \in IdxSetOf(sids) : sids[i] <= 0) THEN {"surf_defined_once"} ELSE {})
@@ -123,7 +125,7 @@ FileDefects(T) ==
   \cup (IF T.geomcomp.present /\
            (\/ \E r \in IdxSetOf(grows) : grows[r].count # Len(grows[r].ids)
             \/ \E r \in IdxSetOf(grows) : ~(ToSet(grows[r].ids) \subseteq nonfict)
-            \/ \E id \in nonfict : assigned(id) # 1
+            \/ ~NoDup(allAssigned) \/ ToSet(allAssigned) # nonfict
             \/ (T.compo.present /\ \E r \in IdxSetOf(grows) : grows[r].name \notin ToSet(cnames)))
         THEN {"geomcomp"} ELSE {})
   \cup (IF T.bc.present /\
